@@ -69,7 +69,7 @@ def marker : Bytes := [DOT, CR, LF]
     the caller knows which).  Returns the new reader, the octets stored, the
     input left, and the error class. -/
 def read (r : DR) (inp : Bytes) (k : Nat) : DR × Bytes × Bytes × Res :=
-  if r.limited && r.n == 0 then
+  if r.limited && r.n == 0 && r.state != .eof then
     if r.state == .bol && inp.take 3 == marker then
       ({ r with state := .eof }, [], inp.drop 3, .eof)
     else (r, [], inp, .tooLarge)
